@@ -103,7 +103,10 @@ CLAIMED.update({
             "Clause (a) (only complete records, in publication order, across any crash/restart pattern) is C02_RA + C03_monotone_RA, whose schedules include crash and restart tokens at "
             "every access; clause (b): C04_restarted_publications_seen (C03_fresh_when_idle over schedules with crash/restart tokens: the attached reader's next call after a completed "
             "publication of the restarted writer returns it) and C04_never_emptied_under_clients (header valid in every reachable state with an attached reader, unbounded).",
-            SHM_NOTE + " Crash inside ShmWriter::new/wipe (file creation) is covered by the C16 file corpus, not by the scheduler.", "DESIGN.md section 6, C04"),
+            SHM_NOTE + " Death inside ShmWriter::new while the file is (re-)created: the system calls on the segment file are measured with strace on every run (created with O_TRUNC, "
+            "payload of every write) and the generated Current_C04w.v proves that every prefix of the measured image is refused by readers "
+            "(C04_death_inside_wipe_leaves_nothing_readable, C04_death_inside_wipe_is_repaired, C04_measured_writes_criterion; C04_wipe_without_truncation_refuted shows why truncation "
+            "is part of the obligation); trusted: strace's rendering of the calls.", "DESIGN.md section 6, C04"),
     "C18": ("Coq proof (strictly decreasing Z-valued measure over reader steps, for every log and every choice at every step) + measured retry budget on the running code "
             "(stalled writer / continuously publishing writer) + schedule correspondence",
             "Machine-checked: C18_step_decreases, C18_bounded (a call ends within 2 + R*(cells+3) accesses whatever the writer does), C18_early_return (odd/zero/unchanged generation: "
